@@ -20,7 +20,7 @@
 -/
 import EG.Props.C06.GeneratedStyled
 namespace EG.C06.Src
-open EG EG.RectSrcPrelude EG.CurveSrcPrelude EG.Generated EG.C16.Src EG.C05.Src
+open EG EG.RectSrcPrelude EG.CurveSrcPrelude EG.Generated EG.C16.Src EG.C05.Src EG.C06
 
 /-! ### `PrimitiveStyle` -/
 
@@ -337,5 +337,88 @@ theorem Ellipse_draw_styled_src_eq_model (e : CurveSrc.Ellipse) (s : CurveSrc.Pr
       rfl
 example : IsU32 (⟨⟨0, 0⟩, ⟨7, 4⟩⟩ : CurveSrc.Ellipse).size ∧
     EllipseRowsBelow 9 ((ellipseOf ⟨⟨0, 0⟩, ⟨7, 4⟩⟩).strokeArea (primStyleOf ⟨none, some 1, 2, .Center, .Solid⟩)) := by decide
+
+/-! ### C06's headline for circles and ellipses, over the regenerated functions only -/
+
+theorem diamFits_of_model_inRange (a : EG.Circle) (h : a.InRange) : DiamFitsI32 a.d := by
+  unfold Circle.InRange Rect.InRange at h
+  unfold DiamFitsI32
+  have := h.2.2.1
+  simp only [Circle.boundingBox] at this
+  omega
+
+theorem axesFit_of_model_inRange (a : EG.Ellipse) (h : a.InRange) : AxesFitI32 a.size := by
+  unfold Ellipse.InRange Rect.InRange at h
+  unfold AxesFitI32
+  have h1 := h.2.2.1
+  have h2 := h.2.2.2.1
+  simp only [Ellipse.boundingBox] at h1 h2
+  omega
+
+/-- **`styled_circle_exact`, both sides regenerated**: on a target with bounding box `B` the calls of the regenerated
+`draw_styled` leave at `p` the fill colour iff the regenerated `contains` of the regenerated `fill_area` accepts `p`, the
+stroke colour iff that of the regenerated `stroke_area` does, the fill area does not and the width is non-zero, and nothing
+otherwise. -/
+theorem src_styled_circle_exact (c : CurveSrc.Circle) (s : CurveSrc.PrimitiveStyle) (B : Rect) (fuel : Nat)
+    (hs : s.stroke_style = .Solid) (hu : DiamIsU32 c.diameter)
+    (hS : ((circleOf c).strokeArea (primStyleOf s)).InRange) (hF : ((circleOf c).fillArea (primStyleOf s)).InRange)
+    (f1 : CircleRowsBelow fuel ((circleOf c).strokeArea (primStyleOf s)))
+    (f2 : CircleRowsBelow fuel ((circleOf c).fillArea (primStyleOf s))) (p : Pt) :
+    runNative B (CurveSrc.Circle_StyledDrawable_draw_styled fuel c s) p =
+      (if B.contains p = true then
+        if CurveSrc.Circle_ContainsPoint_contains (CurveSrc.PrimitiveStyle_fill_area_Circle s c) p = true then s.fill_color
+        else if CurveSrc.Circle_ContainsPoint_contains (CurveSrc.PrimitiveStyle_stroke_area_Circle s c) p = true
+            ∧ s.stroke_width > 0 then s.stroke_color
+        else none
+      else none) := by
+  have h1 := diamFits_of_model_inRange _ hS
+  have h2 := diamFits_of_model_inRange _ hF
+  have hSA := stroke_area_Circle_src_eq_model s c hu
+  have hFA := fill_area_Circle_src_eq_model s c hu hs
+  have d1 : DiamFitsI32 (CurveSrc.PrimitiveStyle_stroke_area_Circle s c).diameter := by
+    show DiamFitsI32 (circleOf (CurveSrc.PrimitiveStyle_stroke_area_Circle s c)).d
+    rw [hSA]; exact h1
+  have d2 : DiamFitsI32 (CurveSrc.PrimitiveStyle_fill_area_Circle s c).diameter := by
+    show DiamFitsI32 (circleOf (CurveSrc.PrimitiveStyle_fill_area_Circle s c)).d
+    rw [hFA]; exact h2
+  rw [Circle_draw_styled_src_eq_model c s fuel hs hu h1 h2 f1 f2, Circle_contains_src_eq_model _ p d1,
+    Circle_contains_src_eq_model _ p d2, hSA, hFA]
+  exact (styled_circle_exact (primStyleOf s) (circleOf c) B hS hF p).1
+example : (⟨some 1, some 2, 9, .Center, .Solid⟩ : CurveSrc.PrimitiveStyle).stroke_style = .Solid ∧
+    DiamIsU32 (⟨⟨-3, 2⟩, 7⟩ : CurveSrc.Circle).diameter ∧
+    ((circleOf ⟨⟨-3, 2⟩, 7⟩).strokeArea (primStyleOf ⟨some 1, some 2, 9, .Center, .Solid⟩)).InRange ∧
+    ((circleOf ⟨⟨-3, 2⟩, 7⟩).fillArea (primStyleOf ⟨some 1, some 2, 9, .Center, .Solid⟩)).InRange ∧
+    CircleRowsBelow 20 ((circleOf ⟨⟨-3, 2⟩, 7⟩).strokeArea (primStyleOf ⟨some 1, some 2, 9, .Center, .Solid⟩)) ∧
+    CircleRowsBelow 20 ((circleOf ⟨⟨-3, 2⟩, 7⟩).fillArea (primStyleOf ⟨some 1, some 2, 9, .Center, .Solid⟩)) := by decide
+
+/-- **`styled_ellipse_exact`, both sides regenerated.** -/
+theorem src_styled_ellipse_exact (e : CurveSrc.Ellipse) (s : CurveSrc.PrimitiveStyle) (B : Rect) (fuel : Nat)
+    (hs : s.stroke_style = .Solid) (hu : IsU32 e.size)
+    (hS : ((ellipseOf e).strokeArea (primStyleOf s)).InRange) (hF : ((ellipseOf e).fillArea (primStyleOf s)).InRange)
+    (f1 : EllipseRowsBelow fuel ((ellipseOf e).strokeArea (primStyleOf s)))
+    (f2 : EllipseRowsBelow fuel ((ellipseOf e).fillArea (primStyleOf s))) (p : Pt) :
+    runNative B (CurveSrc.Ellipse_StyledDrawable_draw_styled fuel e s) p =
+      (if B.contains p = true then
+        if CurveSrc.Ellipse_ContainsPoint_contains (CurveSrc.PrimitiveStyle_fill_area_Ellipse s e) p = true then s.fill_color
+        else if CurveSrc.Ellipse_ContainsPoint_contains (CurveSrc.PrimitiveStyle_stroke_area_Ellipse s e) p = true
+            ∧ s.stroke_width > 0 then s.stroke_color
+        else none
+      else none) := by
+  have h1 := axesFit_of_model_inRange _ hS
+  have h2 := axesFit_of_model_inRange _ hF
+  have hSA := stroke_area_Ellipse_src_eq_model s e hu
+  have hFA := fill_area_Ellipse_src_eq_model s e hu hs
+  have d1 : AxesFitI32 (CurveSrc.PrimitiveStyle_stroke_area_Ellipse s e).size := by
+    show AxesFitI32 (ellipseOf (CurveSrc.PrimitiveStyle_stroke_area_Ellipse s e)).size
+    rw [hSA]; exact h1
+  have d2 : AxesFitI32 (CurveSrc.PrimitiveStyle_fill_area_Ellipse s e).size := by
+    show AxesFitI32 (ellipseOf (CurveSrc.PrimitiveStyle_fill_area_Ellipse s e)).size
+    rw [hFA]; exact h2
+  rw [Ellipse_draw_styled_src_eq_model e s fuel hs hu h1 h2 f1 f2, Ellipse_contains_src_eq_model _ p d1,
+    Ellipse_contains_src_eq_model _ p d2, hSA, hFA]
+  exact (styled_ellipse_exact (primStyleOf s) (ellipseOf e) B hS hF p).1
+example : IsU32 (⟨⟨-3, 2⟩, ⟨7, 3⟩⟩ : CurveSrc.Ellipse).size ∧
+    ((ellipseOf ⟨⟨-3, 2⟩, ⟨7, 3⟩⟩).strokeArea (primStyleOf ⟨some 1, some 2, 9, .Center, .Solid⟩)).InRange ∧
+    EllipseRowsBelow 20 ((ellipseOf ⟨⟨-3, 2⟩, ⟨7, 3⟩⟩).strokeArea (primStyleOf ⟨some 1, some 2, 9, .Center, .Solid⟩)) := by decide
 
 end EG.C06.Src
